@@ -87,6 +87,7 @@ package ociauth
 //@             result == holdsOther(s, r)
 
 //@ func (Scope).Equal
+//@   pure
 //@   strings atom
 //@   bytes bv
 //@   modifies nothing
@@ -400,5 +401,7 @@ package ociauth
 //@   requires wf(s1) && wf(s2)
 //@   ensures[unlimited-absorbs] s1.unlimited || s2.unlimited ==> result.unlimited
 //@   ensures[limited-stays-limited] !s1.unlimited && !s2.unlimited ==> !result.unlimited
+//@   ensures[nothing-added-returns-the-receiver-as-is] !s1.unlimited && !s2.unlimited && ((len(s2.repositories) == 0 && len(s2.others) == 0) || s1.Equal(s2)) ==> result == s1
+//@   ensures[same-set-keeps-the-receiver-text] !s1.unlimited && !s2.unlimited && result.Equal(s1) ==> result == s1
 //@   loop 0 invariant 0 <= i1 && i1 <= len(s1.repositories) && 0 <= i2 && i2 <= len(s2.repositories) && !r.unlimited && len(r.others) == 0
 //@   loop 1 invariant 0 <= i1 && i1 <= len(s1.others) && 0 <= i2 && i2 <= len(s2.others) && !r.unlimited
